@@ -10,7 +10,9 @@ from . import e2e_faults as _e2ef
 from . import e2e_signals as _e2es
 
 TECH = ("contract-based deductive verification: Verus discharges contracts woven into the real functions extracted from "
-        "/repo on every run (units: %s); vacuity canary copies; failures mapped to the property by contract labels")
+        "/repo on every run (units: %s); vacuity canary copies; failures mapped to the property by contract labels. Bounded parts "
+        "(labelled bounded, never counted in obligations/discharged): generated project trees, fault points and stop signals run through the release "
+        "binary of the current tree - the stand-in when a change puts a function outside the verifier's subset, and the source of a concrete failing input")
 
 
 def _p(units, note, text, level="proof", **kw):
